@@ -44,6 +44,27 @@ UNITS = [lq(n, RX[n], **({'replay': REPLAY} if n == 'push' else {})) for n in ('
          spec=['C10/lq_spec.h', 'C10/h_lemma.c'], harness='h_lq_conservation', defines=DEFS + ['CV_LQ_CONSERVATION 1'], solver_flag='--z3', solver='smt2 (z3 4.8) - solver-specific',
          under_contract=['arithmetic consequence of the counting invariant of lq_lemma']),
 ]
+# ---- move-only payload (drivers/c09_mo_item.h): limited_queue<mo_item>; containers / promise<mo_item> of lib/model_awq_mo.c run the REAL special members of the item
+LMT = LQT.replace('<int,', '<mo_item,')
+MPAIR = 'std::pair<mo_item, cocls::promise<void> >'
+LM_TYPES = {'SPB': 'cocls::suspend_point<bool>', 'EXCP': 'std::__exception_ptr::exception_ptr', 'LM': LMT, 'MO': 'mo_item', 'PRM': 'cocls::promise<mo_item>', 'FUTM': 'cocls::future<mo_item>',
+            'PRV': 'cocls::promise<void>', 'FUTV': 'cocls::future<void>', 'MQ_T': 'std::queue<mo_item, std::deque<mo_item, std::allocator<mo_item> > >', 'WQM_T': stdq('cocls::promise<mo_item>'),
+            'MBQ_T': stdq(MPAIR), 'MPAIR_T': MPAIR}
+LM_GLOBALS = dict(GLOBALS, MO_LIVE='_ZN7mo_item4liveE', MO_DEAD='_ZN7mo_item11dead_valuedE', MO_DEAD_TAG='_ZN7mo_item13last_dead_tagE')
+LM_BOUNDARY = [r'^(decltype\(auto\) )?std::queue<', r'^(cocls::suspend_point<bool> )?cocls::promise<(mo_item|void)>::', r'^cocls::suspend_point<bool>::~suspend_point\(\)$']
+MO_ROOTS = [r'^mo_item::mo_item\(mo_item&&\)$', r'^mo_item::~mo_item\(\)$']
+LM_RX = {'push': r'^cocls::future<void> cocls::limited_queue<mo_item, .*>::push<mo_item>\(mo_item&&\)$', 'pop': '^' + esc(LMT) + r'::pop\(\)$',
+         'unblock_push': '^' + esc(LMT) + r'::unblock_push\(std::__exception_ptr::exception_ptr\)$', 'dtor': '^' + esc(LMT) + r'::~limited_queue\(\)$'}
+def lm(name, **kw):
+    d = dict(name='lm_' + name, driver='c10_lqueue_mo.cpp', roots=[LM_RX[name]] + MO_ROOTS, names={'lm_' + name: LM_RX[name]}, types=LM_TYPES, globals=LM_GLOBALS, boundary=LM_BOUNDARY,
+             lib=LIBS + ['model_awq_mo.c'], spec=['C10/lq_spec.h', 'C10/lm_spec.h', 'C10/h_lm.c'], harness='h_lm_' + name, enforce='lm_' + name,
+             defines=['CV_MODEL_PROMISE_VOID 1', 'CV_MODEL_MO 1', 'CV_MODEL_MO_BQ 1'], timeout=300,
+             under_contract=['cocls::limited_queue<mo_item>::' + name + ' (move-only item: object identity, moved-from state, live-instance conservation)'])
+    d.update(kw); return d
+UNITS += [lm('push'), lm('pop'), lm('unblock_push'), lm('dtor')]
+LM_BND = dict(defines=['CV_MODEL_PROMISE_VOID 1', 'CV_MODEL_MO 1', 'CV_MODEL_MO_BQ 1', 'CV_BOUNDED_FALLBACK 1'], unwind=8, kind='bounded', object_bits=9, timeout=600,
+              bounded='limit <= 4, <= 5 queued items, <= 4 blocked producers, <= 4 waiting pops; loops unwound (no loop contracts)')
+UNITS += [dict(lm('pop', **LM_BND), name='lm_pop_bounded'), dict(lm('push', **LM_BND), name='lm_push_bounded'), dict(lm('unblock_push', **LM_BND), name='lm_unblock_push_bounded')]
 META = dict(
     level='proof',
     level_text=('Every public member of cocls::limited_queue<int> (constructor, push, pop incl. the future-constructor lambda, unblock_push, inherited size/empty, destructor) is checked on the C translation '
@@ -54,17 +75,23 @@ META = dict(
                 'fails it with exactly e. A history lemma over these contracts (unbounded loop, two tagged pushes, event counters, symbolic limit >= 1) proves: every pushed item is in exactly one place '
                 '(not pushed / item sequence / blocked / delivered / handed over / withdrawn), conservation pushes == handed + delivered + withdrawn + |Q| + |B|, delivery order == push order also across blocking, '
                 'blocked pushes complete in arrival order, one per pop, and a push future is pending exactly while its item is blocked. '
-                'The pinned tree failed three postconditions of limited_queue::push (item emplaced AND parked: delivered twice; blocked one item early) - repaired by /repo commit a2f611a, native replay replay/c10_dup.cpp. Bounded siblings (lq_*_bounded: limit <= 4, loops unwound) decide the same contracts when a member is rewritten with a new loop.'),
+                'MOVE-ONLY ITEMS (units lm_push / lm_pop / lm_unblock_push / lm_dtor on cocls::limited_queue<mo_item>, mo_item = drivers/c09_mo_item.h with its REAL translated move constructor / destructor): on every path the object that '
+                'reaches the consumer, the item sequence or the blocked-producer sequence carries the pushed tag and is not moved-from (a pending push really HOLDS its item; the held item arrives intact at the back of Q when a pop makes room), '
+                'the pushed object is moved from exactly once, live instances are conserved (push + 1 on all three paths incl. the temporaries of the blocked path, pop + 0 also when a blocked item moves from B to Q), push / pop destroy no '
+                'instance that still carries its value, unblock_push destroys exactly one - the withdrawn item (its tag is checked) - and ~limited_queue() destroys exactly the |Q| + |B| items inside (none leaked); natively cross-checked by replay/c09_mo_queue.cpp. '
+                'The pinned tree failed three postconditions of limited_queue::push (item emplaced AND parked: delivered twice; blocked one item early) - repaired by /repo commit a2f611a, native replay replay/c10_dup.cpp. Bounded siblings (lq_*_bounded and, for the move-only contracts, lm_*_bounded: limit <= 4, loops unwound) decide the same contracts when a member is rewritten with a new loop.'),
     level_note=('Same reduction as C09: sequential contracts per critical section + machine-checked lock discipline (containers only while the mutex is held, parked promises resolved / coroutines resumed after unlock, '
                 'one critical section per operation) stand for "every interleaving"; no real producer/consumer threads are run. Limits are symbolic (any value in the per-function contracts, >= 1 in the lemma), '
                 'not 1..4. promise/future are abstract (resolution log); the readiness of the future returned by push is a fact about the real future object built by the real translated constructors. '
-                'unblock_pop is not reachable through limited_queue (protected base, no using-declaration) and is therefore not part of the histories. Only T=int with the default policies is instantiated. '
+                'unblock_pop is not reachable through limited_queue (protected base, no using-declaration) and is therefore not part of the histories. T=int and the move-only T=mo_item (push, pop, unblock_push, destructor; the constructor and '
+                'size/empty do not touch items; the history lemma is over the int contracts) with the default policies are instantiated. '
                 'The conservation sum is derived from the lockstep counting invariant by an arithmetic lemma that needs an SMT back end (z3) - solver-specific. The history lemma is a statement about the contracts: '
                 'it is meaningful because every member satisfies its contract (units lq_*).'),
     technique=('CBMC 6.11 code contracts enforced per function with goto-instrument --dfcc on the C translation (ir2c) of the clang IR of the real queue.h; std containers and promise operations as assumed-contract '
                'boundary models with a ghost-index element view; history lemma = loop contract over replaced contracts; z3 for pure linear arithmetic; native replay against the real headers'),
     trusted_base=['assumed contract: std::queue<int>, std::queue<promise<int>>, std::queue<pair<int,promise<void>>> are unbounded FIFOs with move-in / destroy-on-pop element semantics (lib/model_awq_containers.c)',
                   'abstract boundary: cocls::promise<T> operations and suspend_point<bool>::~suspend_point as ghost-logging stubs (lib/model_awq_promise.c); future.h internals not translated',
+                  'assumed contract (move-only units): std::queue<mo_item>, std::queue<promise<mo_item>>, std::queue<pair<mo_item,promise<void>>> as FIFOs that run the REAL mo_item move constructor / destructor where the real containers would (element construction on push/emplace, destruction on pop and in ~queue); promise<mo_item>::operator()(mo_item&&) move-constructs the future\'s value once; std::pair special members are the real translated libstdc++ ones (lib/model_awq_mo.c)',
                   'primitive: std::mutex via pthread_mutex_lock/unlock with lock-discipline obligations (lib/model_mutex.c)',
                   'rely/guarantee reduction of interleavings to sequential histories of critical sections (argued, DESIGN 3.5)'],
     assumptions=['ghost positions / event counters are mathematical integers (never wrap: fewer than 2^62 operations)',
